@@ -18,6 +18,7 @@ EXPLANATION = (
     'Also decided (round 8): PYRO_* environment settings (ITER_STREAM_LINGER=0, ITER_STREAMING=off) are stored as converted, not through a truthiness fallback. '
     "Also decided (round 10): get_next_stream_item returns only what this call's next() produced and refuses only ids that are not in the table; a Daemon that was constructed is not in the shutting-down state. "
     'Also decided (round 9): One __next__ sends one item fetch and communication errors are not retried; nothing in the housekeeping pass can raise (no calls into user iterators). '
+    'Also decided (round 11): With a connected proxy every path through _StreamResultIterator.close sends close_stream; Proxy.__iter__ yields the remote stream outside the handler that selects the index fall-back. '
     "Not decided (most of the property): item order, no loss/duplication, interleavings of next/close/reconnect/housekeeping, "
 )
 
